@@ -239,6 +239,69 @@ def conforms (t : Table) (ex sh : List Lock) : List Action → Bool
         | .excl => ex.contains p.1
         | .shared => ex.contains p.1 || sh.contains p.1) && conforms t ex sh r
 
+/-! ### re-entrant acquisition -/
+
+def acqOf (m : List (Nat × List Lock)) (f : Nat) : List Lock := (m.lookup f).getD []
+
+/-- `trans` is closed: it contains what each function locks itself and what its (synchronous, same-package) callees lock -/
+def acqClosed (t : Table) (direct trans : List (Nat × List Lock)) : Bool :=
+  direct.all (fun p => p.2.all fun l => (acqOf trans p.1).contains l) &&
+  t.sites.all (fun c => (acqOf trans c.callee).all fun l => (acqOf trans c.caller).contains l)
+
+/-- no call is made while holding lock `l` (shared or exclusive) to a function that acquires `l` again, and no function
+    re-acquires a lock it holds (`self`): sync.Mutex is not reentrant, and a second RLock deadlocks once a writer is queued -/
+def noReentrant (t : Table) (trans : List (Nat × List Lock)) (self : List CallSite) : Bool :=
+  (t.sites ++ self).all fun c =>
+    (total t c.caller c.held).all fun h => !(acqOf trans c.callee).contains h.1
+
+/-- the re-entrant call sites (for the driver / reports) -/
+def reentrantSites (t : Table) (trans : List (Nat × List Lock)) (self : List CallSite) : List (Lock × Nat × Nat) :=
+  (t.sites ++ self).flatMap fun c =>
+    ((total t c.caller c.held).filter fun h => (acqOf trans c.callee).contains h.1).map fun h => (h.1, c.caller, c.callee)
+
+/-! ### writer preference (sync.RWMutex): a pending `Lock` blocks new `RLock`s -/
+
+def nextIsAcq (t : Thread) (l : Lock) : Bool :=
+  match t.rest with
+  | .acq l' :: _ => l' == l
+  | _ => false
+
+/-- some OTHER thread is waiting in `acq l` -/
+def writerPending (s : State) (i : Nat) (l : Lock) : Bool :=
+  (List.range s.length).any fun j => j != i && (match s[j]? with | some t => nextIsAcq t l | none => false)
+
+/-- step of thread `i` under writer preference: as `step`, but `racq l` is also blocked while a writer is queued on `l` -/
+def stepWP (s : State) (i : Nat) : Option State :=
+  match s[i]? with
+  | none => none
+  | some t =>
+    match t.rest with
+    | .racq l :: _ => if writerPending s i l then none else step s i
+    | _ => step s i
+
+def finished (s : State) : Bool := s.all fun t => t.rest.isEmpty
+
+/-- nobody can move although somebody is not done -/
+def deadlockedWP (s : State) : Bool :=
+  !finished s && (List.range s.length).all fun i => (stepWP s i).isNone
+
+/-! ### objects obtained from a lister / informer cache -/
+
+inductive CacheUseKind where
+  | obtained   -- result of <Lister>.Get / .List, or an event-handler argument
+  | passed     -- handed to a function of the same package (its parameter is tracked there)
+  | written    -- assigned through: the shared cache object is mutated
+  deriving DecidableEq, Repr
+
+structure CacheUse where
+  fn : Nat
+  kind : CacheUseKind
+  what : String
+  pos : String
+  deriving Repr
+
+def cacheNeverWritten (l : List CacheUse) : Bool := l.all fun u => u.kind != .written
+
 /-! ### lock balance -/
 
 inductive Release where
